@@ -556,7 +556,8 @@ Definition summary_of (si : option value) : cres summary :=
   | None => RErr EIncomplete
   | Some v =>
       let g tg := match field_of "zvt::packets::StatusInformation" v tg with Some (VSome (VInt n)) => Some n | _ => None end in
-      ROk {| m_tid := g 41; m_amount := g 4; m_trace := g 11; m_date := g 13; m_time := g 12 |}
+      ROk {| m_tid := option_map (pad_dec 8) (g 41); m_amount := g 4; m_trace := g 11;
+             m_date := option_map (pad_dec 4) (g 13); m_time := option_map (pad_dec 6) (g 12) |}
   end.
 
 (* while another transaction is still open, a completed commit causes no further traffic at all *)
@@ -654,3 +655,58 @@ Proof. intros H. unfold h_pending. rewrite N.eqb_refl, H. cbn [fst]. destruct (r
 
 Theorem pending_other_packet_is_unexpected ixa i v : i <> ixa -> fst (h_pending ixa tt i v) = Some (RErr EUnexpectedPacket).
 Proof. intros H. unfold h_pending. destruct (i =? ixa) eqn:E; [lia|reflexivity]. Qed.
+
+(* ================================================================== the text fields of the summary (format!("{:0w$}", n)) *)
+Definition is_digit (c : N) : Prop := 48 <= c <= 57.
+Definition dval (l : list N) : N := fold_left (fun a c => a * 10 + (c - 48)) l 0.
+
+Lemma dval_app a b : dval (a ++ b) = fold_left (fun x c => x * 10 + (c - 48)) b (dval a).
+Proof. unfold dval. apply fold_left_app. Qed.
+
+Lemma dec_digits_spec : forall f n, n < 10 ^ N.of_nat f -> (0 < f)%nat ->
+  Forall is_digit (dec_digits f n) /\ dval (dec_digits f n) = n /\ dec_digits f n <> [].
+Proof.
+  induction f as [|f IH]; intros n Hn Hf; [lia|]. cbn [dec_digits]. destruct (n <? 10) eqn:E.
+  - split; [constructor; [unfold is_digit; lia|constructor]|]. split; [unfold dval; cbn [fold_left]; lia|discriminate].
+  - assert (Hf' : (0 < f)%nat).
+    { destruct f; [|lia]. cbn in Hn. lia. }
+    assert (Hq : n / 10 < 10 ^ N.of_nat f).
+    { rewrite Nat2N.inj_succ, N.pow_succ_r' in Hn. apply N.div_lt_upper_bound; lia. }
+    destruct (IH (n / 10) Hq Hf') as [D [V NE]]. split; [|split].
+    + apply Forall_app. split; [exact D|constructor; [unfold is_digit; lia|constructor]].
+    + rewrite dval_app, V. cbn [fold_left]. lia.
+    + intros H. apply app_eq_nil in H. destruct H as [_ H]. discriminate.
+Qed.
+
+Lemma dval_zeros k l : dval (repeat 48 k ++ l) = dval l.
+Proof.
+  rewrite dval_app. assert (Z : dval (repeat 48 k) = 0).
+  { assert (G : forall k a, fold_left (fun x c => x * 10 + (c - 48)) (repeat 48 k) a = a * 10 ^ N.of_nat k).
+    { clear. induction k as [|k IH]; intros a; [cbn; lia|]. cbn [repeat fold_left]. rewrite IH, Nat2N.inj_succ, N.pow_succ_r'. lia. }
+    unfold dval. rewrite G. lia. }
+  rewrite Z. reflexivity.
+Qed.
+
+Lemma digits_value_dval l : l <> [] -> Forall is_digit l -> digits_value l = Some (dval l).
+Proof.
+  intros Hne Hd. unfold digits_value, dval. destruct l as [|c0 l0] eqn:El; [congruence|]. rewrite <- El in *. clear Hne.
+  assert (G : forall l a, Forall is_digit l ->
+            fold_left (fun acc c => match acc with
+                                    | Some a => if (48 <=? c) && (c <=? 57) then Some (a * 10 + (c - 48)) else None
+                                    | None => None end) l (Some a) = Some (fold_left (fun a c => a * 10 + (c - 48)) l a)).
+  { clear. induction l as [|c l IH]; intros a Hd; [reflexivity|]. inversion Hd as [|? ? Hc Hl]; subst. cbn [fold_left].
+    unfold is_digit in Hc. destruct ((48 <=? c) && (c <=? 57)) eqn:E; [|lia]. apply IH. exact Hl. }
+  apply G. exact Hd.
+Qed.
+
+(* the text of a summary field: at least w characters, all digits, spelling exactly the number *)
+Theorem pad_dec_spec w n : n < 10 ^ 40 ->
+  (w <= length (pad_dec w n))%nat /\ Forall is_digit (pad_dec w n) /\ digits_value (pad_dec w n) = Some n.
+Proof.
+  intros Hn. destruct (dec_digits_spec 40 n) as [D [V NE]]; [exact Hn|lia|]. unfold pad_dec.
+  assert (F : Forall is_digit (repeat 48 (w - length (dec_digits 40 n)) ++ dec_digits 40 n)).
+  { apply Forall_app. split; [|exact D]. apply Forall_forall. intros x Hx. apply repeat_spec in Hx. subst x. unfold is_digit. lia. }
+  split; [rewrite app_length, repeat_length; lia|]. split; [exact F|].
+  rewrite digits_value_dval; [rewrite dval_zeros, V; reflexivity| |exact F].
+  intros H. apply app_eq_nil in H. destruct H as [_ H]. exact (NE H).
+Qed.
